@@ -110,7 +110,7 @@ def grammar_part(prog, R):
         if not al:
             R.ob(rule, k, True, at, "unreachable in every context: the abstract state at this site implies the asserted condition")
         elif f"{rule}:{k}" in reviewed:
-            R.reviewed(rule, k, at, reviewed[f"{rule}:{k}"])
+            R.reviewed(rule, k, at, reviewed[f"{rule}:{k}"]["reason"])
         else:
             ctxs = sorted(set((short(x["ctx"]), (x["via"] or ("", "", ""))[0]) for x in al))[:4]
             R.ob(rule, k, False, where(al[0]), f"panic site reachable: {al[0]['what']}; reached in contexts {ctxs}")
